@@ -262,7 +262,7 @@ class DAGAnalyzer(ASTTemplate):
         aux = copy.copy(self.unknown_variables)
         for variable in aux:
             for _number_of_statement, dependency in self.dependencies.items():
-                if variable in dependency.outputs:
+                if variable in dependency.outputs or variable in dependency.persistent:
                     self.unknown_variables.discard(variable)
                     for _ns2, dep2 in self.dependencies.items():
                         if variable in dep2.unknown_variables:
